@@ -22,10 +22,19 @@ Six families of monitors, each with its own counters and mechanism ids:
            owner / study id with a related space, from_study_config on an existing
            study (config ignored by the service), a sibling study; every add_trial is
            decided against the space the study has at that moment (vv/c16_life.py)
+  served   the space a study *has* after StudyConfig.to_proto/from_proto or after being
+           stored and read back through a local servicer is the conditional space it was
+           defined with (structure per parent kind incl. INTEGER / DISCRETE parents, depth
+           1..3); the walker over the served space visits the active set; add_trial on the
+           conditional study never accepts a non-member and never answers a member as
+           infeasible (vv/c16_served.py)
+  alias    a definition is fixed when built: in-place edits of lists handed out by read
+           accessors (feasible_values, parameters) or given to builders change neither the
+           normalised definition nor any membership answer (vv/c16_alias.py)
 """
 from vv import gen
-from vv import c16_builder, c16_cond as cond, c16_life, c16_member, c16_walk
-from vv.c16_util import quiet_logs
+from vv import c16_alias, c16_builder, c16_cond as cond, c16_life, c16_member, c16_served, c16_walk
+from vv.c16_util import quiet_logs, dec as c16_util_dec
 
 PROPERTY = 'C16'
 LEVEL = 'exploration'
@@ -40,7 +49,15 @@ RULE = ('case index -> family (member x4, builder x2, walk x2, cond, client); me
         'renamed, kind changed / fresh), from_study_config on the existing study, sibling study, '
         're-open}, 2..4 add_trial calls after each step through any handle made so far, '
         'assignments drawn from the current space (16 classes) and from the other spaces of the '
-        'program. distinct = hash(family, space/tree shape, class, value labels; life: op shapes); '
+        "program; with every cond case one 'served' case (own stream rng(i, 'served')): "
+        'conditional tree depth 1..3 with parents of all four finite kinds x route {to_proto/'
+        'from_proto, RAM servicer, SQL servicer}: structure of the served space, dfs + bfs walk '
+        'over it, 4 add_trial assignments of known conditional membership; with every member '
+        "case that has a finite-domain parameter one 'alias' program (own stream rng(i, "
+        "'alias')): 1..4 in-place edits {remove, append, insert-front, overwrite-first, reverse, "
+        'clear} of lists obtained from {ParameterConfig.feasible_values, SearchSpace.parameters, '
+        'the list given to add_discrete/categorical_param or ParameterConfig.factory}, then read-back of every definition '
+        'and membership probes aimed at each edit. distinct = hash(family, space/tree shape, class, value labels; life: op shapes); '
         'non-trivial = non-empty space (walk: depth >= 1).')
 ASSUMPTIONS = [
     'a python bool given to a BOOL parameter is a member (documented ParameterValue.as_str); a '
@@ -61,6 +78,16 @@ ASSUMPTIONS = [
     'life: the implicit local servicer of the public classmethods is pointed at the fresh '
     'per-case servicer through vizier_client.environment_variables.servicer_kwargs (documented '
     'knob) and a cache_clear of the local-servicer factory; restored to in-memory SQL afterwards',
+    'served: "the space" of a study is the space as defined by its creator; the transport '
+    '(proto, datastore) is part of the library, so the space the client validates against must '
+    'have the defined structure (names, kinds, children per parent value); external types, '
+    'scale and defaults are not compared here (C09 / C17); on a conditional study add_trial may '
+    'refuse everything as unsupported (NotImplementedError) or answer correctly, a ValueError '
+    'for exactly the active parameter set with feasible values is a wrong answer',
+    'alias: lists returned by read accessors and lists given to builders belong to the caller; '
+    'editing them is not a way to redefine a parameter (the repository returns copies and '
+    'documents no mutation through them); SearchSpace.get / subspaces() / selectors return live '
+    'objects by design and are not edited; an accessor that returns a read-only object passes',
 ]
 REQUIRED_COUNTERS = ['biconditionals_checked', 'members_accepted', 'nonmembers_rejected',
                      'pc_biconditionals_checked', 'pc_true_seen', 'pc_false_seen',
@@ -74,7 +101,18 @@ REQUIRED_COUNTERS = ['biconditionals_checked', 'members_accepted', 'nonmembers_r
                      'life_adds_checked', 'life_stale_handle_refusals',
                      'life_stale_handle_accepts', 'life_recreated_study_refusals',
                      'life_ignored_config_refusals', 'life_ignored_config_accepts',
-                     'life_other_study_space_refusals']
+                     'life_other_study_space_refusals',
+                     # served: every parent kind travelled, every monitor decided something
+                     'served_spaces_checked:proto', 'served_spaces_checked:service',
+                     'served_parent_kind:INTEGER', 'served_parent_kind:DISCRETE',
+                     'served_parent_kind:CATEGORICAL', 'served_parent_kind:BOOL',
+                     'served_structures_equal', 'served_walks_checked',
+                     'served_add_trial_members', 'served_add_trial_nonmembers',
+                     # alias: edits really happened on each source and were followed by probes
+                     'alias_edits:feasible_values', 'alias_edits:builder-argument',
+                     'alias_edits:parameters', 'alias_readbacks_checked',
+                     'alias_membership_probes', 'alias_programs_held',
+                     'alias_spaces_built_via:selector', 'alias_spaces_built_via:factory']
 MIN_DISTINCT = {'quick': 1500, 'thorough': 8000}
 
 FAMILIES = ['member', 'builder', 'walk', 'member', 'cond', 'member', 'builder', 'walk',
@@ -107,6 +145,13 @@ def run_case(ctx, i):
       cls = rng.choice(['feasible', 'near-miss', 'missing'])
       a, labels = c16_member.gen_assignment(rng, desc, cls)
       c16_member.exec_empty_subspace(ctx, desc, a, labels, cls, p['name'], v)
+    # a definition is fixed when built (own random stream)
+    if finite:
+      arng = ctx.rng(i, 'alias')
+      ops, via = c16_alias.gen_alias_case(arng, desc)
+      if ops:
+        base, _ = c16_member.gen_assignment(arng, desc, 'feasible')
+        c16_alias.exec_alias(ctx, desc, ops, base, via)
   elif fam == 'builder':
     for _ in range(6 if ctx.tier == 'quick' else 12):
       c16_builder.exec_builder(ctx, c16_builder.gen_op(rng))
@@ -118,6 +163,9 @@ def run_case(ctx, i):
     tree, variants = c16_member.gen_cond_case(rng)
     for name, a in variants:
       c16_member.exec_cond(ctx, tree, name, a)
+    # the same guarantees for the space a study has after proto / service transport
+    sc = c16_served.gen_served_case(ctx.rng(i, 'served'))
+    c16_served.exec_served(ctx, sc['route'], sc['tree'], c16_util_dec(sc['choices']))
   else:
     backend = 'ram' if (i // len(FAMILIES)) % 2 == 0 else 'sql'
     desc = gen.gen_space(rng, 1, 4, max_int_width=10 ** 4)
@@ -170,5 +218,9 @@ def replay(ctx, case):
     c16_walk.replay_walk(ctx, case)
   elif fam == 'life':
     c16_life.replay_life(ctx, case)
+  elif fam == 'served':
+    c16_served.replay_served(ctx, case)
+  elif fam == 'alias':
+    c16_alias.replay_alias(ctx, case)
   else:
     c16_walk.replay_client(ctx, case)
